@@ -23,6 +23,23 @@ Two streams:
         assignment of Backend.backend on a shared or on the Sampler's own object), source / detector
         re-assigned, sampling calls (with a shared PostSelection object) between the reads;
      c. several living Samplers sharing components, reconfigured and read in interleaved order.
+     d. DEFAULT COMPONENTS PER OBJECT: Samplers created with source / detector / backend omitted or None (and
+        re-assigned to None later), one of them tuned IN PLACE through its accessor (sampler.source.brightness =
+        0.6, sampler.detector.efficiency = .., sampler.backend.backend = "slos"), others created before and
+        after.  The harness keeps its OWN record of what every Sampler was given (a record per default object,
+        one shared record per Source / Detector object handed to several Samplers); a Sampler whose record says
+        "ideal source" must give the ideal-source distribution, every Sampler must report the settings of its
+        record, a Sampler whose record is not ideal is compared with a fresh Sampler holding a fresh Source with
+        the recorded values and (brightness only) with the exact mixture over the photons that were emitted.
+        What was tuned is set back at the end of the scenario, so that scenarios stay independent.
+     e. MAGNITUDE OF A CHANGE: one long-lived Sampler whose circuit holds a Parameter (phase / reflectivity /
+        loss; top level or inside a group), or whose circuit is re-assigned to the same calls with one value
+        nudged, or whose Source brightness is nudged: the value moves by 1e-3 ... 1e-12 in changing order
+        (exact rational points next to each other on the circle), also next to an interference dip where the
+        coincidence probability is ~1e-7 and a tiny move is a large relative change.  Reads after a move of size
+        d are compared BIT FOR BIT with a fresh Sampler and with the exact model / the loss-configuration sum
+        at a tolerance of max(d/50, 1e-13) instead of 1e-9 (the truncation of terms below 1e-9 is mirrored by
+        the model, patterns that sit within 1e-12 of the threshold keep the lenient comparison).
      Every read is judged by the property's clauses, by a fresh Sampler with the same settings, and by the exact
      model run on the construction program that describes the circuit object at that moment.
 """
@@ -38,7 +55,7 @@ import numpy as np
 import circgen as cg
 import fockgen as fg
 import lightworks as lw
-from core import Ctx, ddmin, exc_class
+from core import GQ, Ctx, ddmin, exc_class, frac_str
 from lightworks import emulator
 
 TRUSTED = [
@@ -48,7 +65,9 @@ TRUSTED = [
     "the model is exact, the code rounds: entries within 1e-12 of the 1e-9 truncation threshold are compared leniently",
 ]
 ASSUMPTIONS = ["<= 5 user modes per level, total modes (with loss) <= 10, <= 5 photons incl. heralds",
-               "scenarios: <= 4 Samplers alive, <= 4 related circuits, <= 16 steps"]
+               "scenarios: <= 6 Samplers alive, <= 4 related circuits, <= 30 steps",
+               "magnitude histories: moves of 1e-3 ... 1e-12 of the rational parameter t of the point "
+               "((1-t^2)/(1+t^2), 2t/(1+t^2)); floats of the implementation are compared at >= 1e-13"]
 EPS = Fraction(1, 10**9)
 
 
@@ -111,10 +130,12 @@ def nbasis_of(c, injected: int) -> int:
     return max(1, len(list(fg.fock_all(np.array(c.U_full).shape[0], injected))))
 
 
-def oracle_problems(b: str, d: dict, c, user_input: list[int], eps: Fraction, relax: float = 0.0) -> list[str]:
+def oracle_problems(b: str, d: dict, c, user_input: list[int], eps: Fraction, relax: float = 0.0,
+                    tight: float | None = None) -> list[str]:
     """the property's clauses evaluated on one distribution `d` ({pattern tuple: probability}) that the
     implementation returned for circuit `c` and input `user_input` (heralds not included) with backend `b`;
-    `relax` is a relative slack (only used after a sampling call that may renormalise the stored values)"""
+    `relax` is a relative slack (only used after a sampling call that may renormalise the stored values);
+    `tight` replaces the absolute slack of 1e-9 (reads after a tiny change of a value)"""
     probs: list[str] = []
     full_in = fg.add_heralds(user_input, c.heralds["input"])
     injected = sum(full_in)
@@ -140,10 +161,13 @@ def oracle_problems(b: str, d: dict, c, user_input: list[int], eps: Fraction, re
         lost = injected - sum(s)
         k_s = math.comb(lost + loss_modes - 1, loss_modes - 1) if loss_modes > 0 and lost >= 0 else 1
         deficit = float(eps) * 1.001 * k_s
-        slack = 1e-9 + relax * max(pi, pr)
-        hi = slack + (nbasis * float(eps) if sum(s) == 0 else 0)
+        slack = (1e-9 if tight is None or relax else tight) + relax * max(pi, pr)
+        if tight is not None and loss_modes == 0 and pi > 0:
+            deficit = 0.0  # nothing is marginalised: a pattern is reported as computed or dropped as a whole
+        hi = slack + (nbasis * float(eps) if sum(s) == 0 and (tight is None or loss_modes > 0) else 0)
         if not (-(deficit + slack) <= pi - pr <= hi) and not (pi == 0 and pr <= float(eps) * 1.001 * nbasis + slack):
-            probs.append(f"oracle[{b}]: P{list(s)} = {pi:.9g} but the sum over loss configurations of |amplitude|^2 is {pr:.9g}")
+            probs.append(f"oracle[{b}]: P{list(s)} = {pi:.15g} but the sum over loss configurations of |amplitude|^2 is "
+                         f"{pr:.15g}" + ("" if tight is None else f" (compared at {slack:.1e})"))
             break
     return probs
 
@@ -162,8 +186,9 @@ def model_dist(ctx: Ctx, prog: list, user_input: list[int], b: str, eps: Fractio
 
 
 def corr_problems(ctx: Ctx, b: str, d: dict, prog: list, user_input: list[int], eps: Fraction,
-                  relax: float = 0.0) -> list[str]:
-    """correspondence with the exact model (same truncation rule)"""
+                  relax: float = 0.0, tight: float | None = None) -> list[str]:
+    """correspondence with the exact model (same truncation rule); `tight`: absolute tolerance instead of 1e-9
+    (used when nothing sits at the truncation threshold)"""
     m = model_dist(ctx, prog, user_input, b, eps)
     if "error_class" in m:
         return [f"corr[{b}]: model refuses the input ({m['error_class']}) that the implementation accepts"]
@@ -175,8 +200,10 @@ def corr_problems(ctx: Ctx, b: str, d: dict, prog: list, user_input: list[int], 
     for s in set(d) | set(md):
         pi, pm = d.get(s, 0.0), float(md.get(s, 0))
         tol = (1e-9 + amb * 1.1e-9 if (sum(s) == 0 or amb) else 1e-9) + relax * max(pi, pm)
+        if tight is not None and not amb and not relax:
+            tol = tight
         if abs(pi - pm) > tol:
-            return [f"corr[{b}]: P{list(s)} impl={pi:.12g} model={pm:.12g}"]
+            return [f"corr[{b}]: P{list(s)} impl={pi:.15g} model={pm:.15g} (compared at {tol:.1e})"]
     return []
 
 
@@ -233,6 +260,14 @@ def run_case(ctx: Ctx, case: dict) -> list[str]:
 #                                                        object when it was given as a string / by default)
 #           ["extend", ci, ops]                          the circuit object is extended in place
 #           ["sample", name, how, N, seed, pref]         a sampling call between reads (result not judged here)
+#           ["new", ..., {"omit": ["source", ..]}]       the listed keyword arguments are left out instead of None
+#           ["tune", name, "source"|"detector", {attr: value}]   sampler.source.attr = value: the object the Sampler
+#                                                        holds is changed IN PLACE through the accessor
+#           ["pset", key, kind, value]                   Parameter.set on a Parameter of the circuits (exact value)
+#           ["read", name, {"tight": tol}]               a read after a tiny move: bit for bit / at `tol`
+# Circuit programs may carry Parameters: a bs / ps / loss op whose trailing dict holds {"param": key} passes a
+# lightworks.Parameter as reflectivity / phase / loss (first use creates it with the op's value, later uses - also
+# in another circuit of the scenario - pass the same object).
 # A step that does not apply (unknown name, input of the wrong length) is skipped, so every sub-list of
 # steps is a valid scenario (needed for shrinking).
 
@@ -244,16 +279,75 @@ def _spec_ports(spec: dict, specs: list) -> int:
     return len(spec["model_prog"][0][2])
 
 
+IDEAL_SOURCE = {"brightness": 1, "purity": 1, "indistinguishability": 1, "probability_threshold": 0}
+IDEAL_DETECTOR = {"efficiency": 1, "p_dark": 0, "photon_counting": True}
+
+
+def _pex(op: list) -> dict:
+    return op[-1] if op and isinstance(op[-1], dict) else {}
+
+
+def val_float(kind: str, v) -> float:
+    """the float handed to the library for an exact value (the conversions of circgen.apply_op)"""
+    if kind == "ps":
+        g = GQ.parse(v)
+        return math.atan2(float(g.im), float(g.re))
+    if kind == "bs":
+        return float(Fraction(v[0]) ** 2)
+    return float(Fraction(v[1]) ** 2)
+
+
+def op_value(op: list):
+    return op[3] if op[0] == "ps" else [op[4], op[5]] if op[0] == "bs" else [op[3], op[4]]
+
+
+def literal_op(op: list, vals: dict) -> list:
+    """the same call with its Parameter replaced by the value in `vals`"""
+    ex = _pex(op)
+    if "param" not in ex or ex["param"] not in vals:
+        return op
+    v = vals[ex["param"]]
+    new = list(op[:-1])
+    if op[0] == "ps":
+        new[3] = v
+    elif op[0] == "bs":
+        new[4], new[5] = v
+    else:
+        new[3], new[4] = v
+    new.append({k: x for k, x in ex.items() if k != "param"})
+    return new
+
+
+def point(t: Fraction) -> tuple[Fraction, Fraction]:
+    """the rational point of the unit circle with parameter t"""
+    t = Fraction(t)
+    return (1 - t * t) / (1 + t * t), 2 * t / (1 + t * t)
+
+
+def t_of(x, y) -> Fraction | None:
+    x, y = Fraction(x), Fraction(y)
+    return None if x == -1 else y / (1 + x)
+
+
+def value_at(kind: str, t: Fraction):
+    x, y = point(t)
+    return GQ(x, y).s() if kind == "ps" else [frac_str(x), frac_str(y)]
+
+
 class Scene:
-    """the circuit objects of a scenario and the construction program that describes each of them now"""
+    """the circuit objects of a scenario, their Parameters, and the construction program that describes each of
+    them now"""
 
     def __init__(self, specs: list) -> None:
         self.pools: list[dict] = []
         self.progs: list[list] = []
+        self.pars: dict = {}
+        self.vals: dict = {}
         for sp in specs:
             if "prog" in sp:
-                self.pools.append(fg.build_impl(sp["prog"]))
-                self.progs.append(list(sp["prog"]))
+                self.pools.append({})
+                self.progs.append([])
+                self.extend(len(self.pools) - 1, sp["prog"])
             else:
                 src = self.pools[sp["ufull_of"]].get("c1")
                 self.pools.append({} if src is None else {"c1": lw.Unitary(np.array(src.U_full))})
@@ -262,17 +356,100 @@ class Scene:
     def circ(self, i: int):
         return self.pools[i].get("c1") if 0 <= i < len(self.pools) else None
 
+    def apply(self, i: int, op: list) -> str:
+        key = _pex(op).get("param")
+        if key is None or op[0] not in ("ps", "bs", "loss"):
+            return cg.apply_op(self.pools[i], op)
+        name = op[0]
+        if key not in self.pars:
+            self.vals[key] = op_value(op)
+            self.pars[key] = lw.Parameter(val_float(name, self.vals[key]), label=key)
+        par = self.pars[key]
+        try:
+            c = self.pools[i][op[1]]
+            if name == "ps":
+                c.ps(op[2], par, loss=cg._loss_val(op[4], {}))
+            elif name == "bs":
+                c.bs(op[2], op[3], reflectivity=par, loss=cg._loss_val(op[7], {}), convention=op[6])
+            else:
+                c.loss(op[2], par)
+        except Exception as e:  # noqa: BLE001
+            return exc_class(e)
+        return "ok"
+
     def extend(self, i: int, ops: list) -> list[str]:
-        out = [cg.apply_op(self.pools[i], op) for op in ops]
+        out = [self.apply(i, op) for op in ops]
         self.progs[i] = self.progs[i] + list(ops)
         return out
+
+    def pset(self, key: str, kind: str, value) -> None:
+        if key in self.pars:
+            self.pars[key].set(val_float(kind, value))
+            self.vals[key] = value
+
+    def prog_now(self, i: int) -> list:
+        """the construction program of circuit i with the current values of the Parameters as literals"""
+        return [literal_op(op, self.vals) for op in self.progs[i]]
 
 
 def _dist(obj) -> dict:
     return {tuple(s.s): float(p) for s, p in obj.probability_distribution.items()}
 
 
+def cond_floor(prog: list) -> float:
+    """how exactly the floats of the implementation can follow the exact model: the library computes a beam splitter
+    from arccos(sqrt(reflectivity)), which loses the coupling sin(theta) = s to rounding as u/s when the
+    reflectivity c^2 is next to 1, and the transmission amplitude a of a loss element as u/a when the loss b^2 is
+    next to 1 (u ~ 1e-16); a tolerance below that would test the floating-point unit, not the Sampler"""
+    worst = 0.0
+    for op in prog:
+        xs = []
+        if op[0] == "bs":
+            xs.append(op[5])
+            xs += [op[7][0]] if op[7] else []
+        elif op[0] == "ps":
+            xs += [op[4][0]] if op[4] else []
+        elif op[0] == "loss":
+            xs.append(op[3])
+        for x in xs:
+            x = abs(float(Fraction(x)))
+            if 0 < x < 1:
+                worst = max(worst, 2e-14 / x)
+    return worst
+
+
+def mixture_ref(c, full_in: list[int], brightness: float) -> dict:
+    """ideal-source distributions mixed over the photons a source of the given brightness really emits (every
+    photon of the input, herald photons included, is there with probability `brightness`, independently)"""
+    import itertools
+
+    out: dict = {}
+    for sub in itertools.product(*[range(k + 1) for k in full_in]):
+        w = 1.0
+        for k, j in zip(full_in, sub):
+            w *= math.comb(k, j) * brightness ** j * (1 - brightness) ** (k - j)
+        if w == 0:
+            continue
+        for t, p in ref_dist(c, list(sub)).items():
+            out[t] = out.get(t, 0.0) + w * p
+    return out
+
+
 def run_scenario(ctx: Ctx, sc: dict) -> list[str]:
+    undo: list = []
+    try:
+        return _run_scenario(ctx, sc, undo)
+    finally:
+        # what was tuned in place is set back (scenarios stay independent of each other, also when the library
+        # hands the same object to several Samplers)
+        for comp, attr, old in reversed(undo):
+            try:
+                setattr(comp, attr, old)
+            except Exception:  # noqa: BLE001, PERF203
+                pass
+
+
+def _run_scenario(ctx: Ctx, sc: dict, undo: list) -> list[str]:
     eps = get_eps()
     cap = 6 if ctx.thorough else 5
     try:
@@ -285,6 +462,10 @@ def run_scenario(ctx: Ctx, sc: dict) -> list[str]:
     sources = {k: emulator.Source() for k in comp.get("sources", [])}
     detectors = {k: emulator.Detector(efficiency=v[0], p_dark=v[1], photon_counting=v[2])
                  for k, v in comp.get("detectors", {}).items()}
+    # the harness's own record of what every component object was given (one record per object)
+    src_rec = {k: dict(IDEAL_SOURCE) for k in sources}
+    det_rec = {k: {"efficiency": v[0], "p_dark": v[1], "photon_counting": v[2]}
+               for k, v in comp.get("detectors", {}).items()}
     pss = {}
     for k, v in comp.get("ps", {}).items():
         pss[k] = lw.PostSelection()
@@ -301,19 +482,39 @@ def run_scenario(ctx: Ctx, sc: dict) -> list[str]:
             return "permanent"
         return bref[4:] if bref.startswith("str:") else bnames[bref]
 
+    def settings_problems(name: str, s: dict) -> list[str]:
+        """every Sampler reports what THIS object was given (read through the public accessors)"""
+        obj = s["obj"]
+        for what, rec in (("source", s["src"]), ("detector", s["det"])):
+            for attr, want in rec.items():
+                got = getattr(getattr(obj, what), attr)
+                if got != want:
+                    return [f"oracle: Sampler {name} reports {what}.{attr} = {got!r}; the {what} this Sampler was given "
+                            f"(by default, or explicitly) holds {want!r} - it was changed through another object"]
+        if obj.backend.backend != bname(s["bref"]):
+            return [f"oracle: Sampler {name} reports backend {obj.backend.backend!r}; what it was given is "
+                    f"{bname(s['bref'])!r}"]
+        return []
+
     for k, st in enumerate(sc["steps"]):
         op = st[0]
         if op == "new":
-            _, name, ci, inp, bref, sref, dref = st
+            _, name, ci, inp, bref, sref, dref, *more = st
+            omit = (more[0] if more else {}).get("omit", [])
             c = scene.circ(ci)
             if c is None or len(inp) != c.input_modes:
                 continue
+            kw = {"source": sources.get(sref), "detector": detectors.get(dref), "backend": bk(bref)}
+            for w in omit:
+                if kw.get(w) is None:
+                    kw.pop(w, None)
             try:
-                obj = emulator.Sampler(c, lw.State(inp), source=sources.get(sref), detector=detectors.get(dref),
-                                       backend=bk(bref))
+                obj = emulator.Sampler(c, lw.State(inp), **kw)
             except Exception as e:  # noqa: BLE001
                 return [f"oracle: step #{k} {st[:3]}: creating the Sampler raised {exc_class(e)}: {str(e)[:80]}"]
-            S[name] = {"obj": obj, "ci": ci, "input": list(inp), "bref": bref, "relax": 0.0}
+            S[name] = {"obj": obj, "ci": ci, "input": list(inp), "bref": bref, "relax": 0.0,
+                       "src": src_rec[sref] if sref in src_rec else dict(IDEAL_SOURCE),
+                       "det": det_rec[dref] if dref in det_rec else dict(IDEAL_DETECTOR)}
             continue
         if op == "backend_mutate":
             if st[1] in backends:
@@ -323,6 +524,9 @@ def run_scenario(ctx: Ctx, sc: dict) -> list[str]:
         if op == "extend":
             if scene.circ(st[1]) is not None:
                 scene.extend(st[1], st[2])
+            continue
+        if op == "pset":
+            scene.pset(st[1], st[2], st[3])
             continue
         s = S.get(st[1])
         if s is None:
@@ -343,9 +547,19 @@ def run_scenario(ctx: Ctx, sc: dict) -> list[str]:
                 s["bref"] = st[2]
             elif op == "source":
                 obj.source = sources.get(st[2])
+                s["src"] = src_rec[st[2]] if st[2] in src_rec else dict(IDEAL_SOURCE)
             elif op == "detector":
                 obj.detector = detectors.get(st[2])
+                s["det"] = det_rec[st[2]] if st[2] in det_rec else dict(IDEAL_DETECTOR)
+            elif op == "tune":
+                target = getattr(obj, st[2])
+                rec = s["src"] if st[2] == "source" else s["det"]
+                for attr, v in st[3].items():
+                    undo.append((target, attr, getattr(target, attr)))
+                    setattr(getattr(obj, st[2]), attr, v)
+                    rec[attr] = v
             elif op == "backend_mutate_own":
+                undo.append((obj.backend, "backend", obj.backend.backend))
                 obj.backend.backend = st[2]
                 if s["bref"] is None or s["bref"].startswith("str:"):
                     s["bref"] = f"str:{st[2]}"  # a private object: nobody else may notice
@@ -378,25 +592,52 @@ def run_scenario(ctx: Ctx, sc: dict) -> list[str]:
         if sum(s["input"]) + fg.herald_photons(c) > cap or np.array(c.U_full).shape[0] > 11:
             ctx.count("hist:read_skipped_too_large")
             continue
+        tight = st[2].get("tight") if len(st) > 2 and isinstance(st[2], dict) else None
         b = bname(s["bref"])
         where = f"step #{k} read {st[1]} (circuit {s['ci']}, input {s['input']}, backend {s['bref']}={b})"
+        # (reported after the clauses about the distribution, which are what the property is about)
+        setp = [f"{p}  [{where}]" for p in settings_problems(st[1], s)]
         try:
             d = _dist(obj)
         except Exception as e:  # noqa: BLE001
             return [f"oracle: {where}: probability_distribution raised {exc_class(e)}: {str(e)[:80]}"]
-        probs = oracle_problems(b, d, c, s["input"], eps, s["relax"])
-        if probs:
-            return [f"{probs[0]}  [{where}]", *probs[1:]]
+        rec = s["src"]
+        ideal = rec["brightness"] == 1 and rec["purity"] == 1 and rec["indistinguishability"] == 1
+        if ideal:
+            probs = oracle_problems(b, d, c, s["input"], eps, s["relax"], tight)
+            if probs:
+                return [f"{probs[0]}  [{where}]", *probs[1:], *setp]
+        elif rec["purity"] == 1 and rec["indistinguishability"] == 1:
+            # the property speaks about the ideal source; a source that only loses photons is a mixture of ideal ones
+            ctx.count("hist:read:brightness-mixture")
+            full_in = fg.add_heralds(s["input"], c.heralds["input"])
+            ref = mixture_ref(c, full_in, rec["brightness"])
+            slack = 2 ** sum(full_in) * nbasis_of(c, sum(full_in)) * float(eps) + 1e-9
+            for t in set(d) | set(ref):
+                if abs(d.get(t, 0.0) - ref.get(t, 0.0)) > slack:
+                    return [f"oracle[{b}]: P{list(t)} = {d.get(t, 0.0):.9g} with a source of brightness {rec['brightness']!r} "
+                            f"but the mixture of the ideal-source distributions gives {ref.get(t, 0.0):.9g}  [{where}]", *setp]
+        else:
+            ctx.count("hist:read:imperfect-source:fresh-object-only")
         # a fresh Sampler (own Backend / Source / Detector) with the same settings
         try:
-            fd = _dist(emulator.Sampler(c, lw.State(s["input"]), backend=b))
+            fd = _dist(emulator.Sampler(c, lw.State(s["input"]), backend=b) if ideal else
+                       emulator.Sampler(c, lw.State(s["input"]), source=emulator.Source(**rec), backend=b))
         except Exception as e:  # noqa: BLE001
             return [f"oracle: {where}: a fresh Sampler with the same settings raised {exc_class(e)}: {str(e)[:80]}"]
         for t in set(d) | set(fd):
-            if abs(d.get(t, 0.0) - fd.get(t, 0.0)) > 1e-9 + s["relax"] * max(d.get(t, 0.0), fd.get(t, 0.0)):
-                return [f"oracle[{b}]: P{list(t)} = {d.get(t, 0.0):.9g} but a fresh Sampler with the same settings gives "
-                        f"{fd.get(t, 0.0):.9g}  [{where}]"]
-        probs = corr_problems(ctx, b, d, scene.progs[s["ci"]], s["input"], eps, s["relax"])
+            x, y = d.get(t, 0.0), fd.get(t, 0.0)
+            if (x != y) if (tight is not None and not s["relax"]) else (abs(x - y) > 1e-9 + s["relax"] * max(x, y)):
+                return [f"oracle[{b}]: P{list(t)} = {x!r} but a fresh Sampler with the same settings gives {y!r}"
+                        f"{' (bit-for-bit comparison after a small change of a value)' if tight is not None else ''}"
+                        f"  [{where}]", *setp]
+        if setp:
+            return setp
+        if not ideal:
+            continue
+        pnow = scene.prog_now(s["ci"])
+        probs = corr_problems(ctx, b, d, pnow, s["input"], eps, s["relax"],
+                              None if tight is None else max(tight, cond_floor(pnow)))
         if probs:
             return [f"{probs[0]}  [{where}]"]
     return []
@@ -508,6 +749,7 @@ def gen_extension(ctx: Ctx, rng, scene: Scene, ports: int, ci: int, user_photons
     trial = Scene.__new__(Scene)
     trial.pools = [{k: v.copy() for k, v in scene.pools[ci].items()}]
     trial.progs = [[]]
+    trial.pars, trial.vals = {}, {}
     try:
         res = trial.extend(0, _clone(ops))
     except Exception:  # noqa: BLE001
@@ -538,13 +780,22 @@ class HistGen:
         nph = min(room, self.rng.choice([0, 1, 2, 2, 3, 3]))
         return fg.rand_state(self.rng, c.input_modes, nph)
 
-    def new(self, name: str, ci: int, inp: list | None, bref, sref=None, dref=None) -> None:
+    def new(self, name: str, ci: int, inp: list | None, bref, sref=None, dref=None, omit: list | None = None) -> None:
         inp = self.state_for(ci, inp)
-        self.steps.append(["new", name, ci, inp, bref, sref, dref])
+        self.steps.append(["new", name, ci, inp, bref, sref, dref] + ([{"omit": list(omit)}] if omit else []))
         self.S[name] = {"ci": ci, "input": inp, "bref": bref}
 
-    def read(self, name: str) -> None:
-        self.steps.append(["read", name])
+    def read(self, name: str, tight: float | None = None) -> None:
+        self.steps.append(["read", name] if tight is None else ["read", name, {"tight": tight}])
+
+    def tune(self, name: str, what: str, values: dict) -> None:
+        self.steps.append(["tune", name, what, dict(values)])
+        self.ctx.count(f"hist:tune:{what}:" + "+".join(sorted(values)))
+
+    def small_input(self, ci: int, most: int = 2) -> list[int]:
+        c = self.scene.circ(ci)
+        room = max(0, min(most, self.cap - fg.herald_photons(c)))
+        return fg.rand_state(self.rng, c.input_modes, min(room, self.rng.choice([1, 2, 2])))
 
     def fix_input(self, name: str, force: bool = False) -> None:
         s = self.S[name]
@@ -824,6 +1075,238 @@ def shared_history(ctx: Ctx, rng, base: list, base_input: list | None, cap: int)
     return g.scenario()
 
 
+# ---- default components per object
+
+TUNES = {"source": [{"brightness": 0.6}, {"indistinguishability": 0.8, "brightness": 0.6}, {"purity": 0.9},
+                    {"indistinguishability": 0.5}, {"brightness": 0.85, "purity": 0.95}],
+         "detector": [{"efficiency": 0.7}, {"p_dark": 0.05}, {"photon_counting": False},
+                      {"efficiency": 0.5, "photon_counting": False}]}
+ALL_KW = ["source", "detector", "backend"]
+
+
+def defaults_scenario(ctx: Ctx, rng, base: list, cap: int, what: str, variant: int) -> dict:
+    """Samplers that were given NO source / detector / backend (argument left out, None, re-assigned to None); one
+    of them is tuned in place through its accessor; the others - created before and after - must not notice, a
+    Sampler that shares an explicitly given object must"""
+    specs = [{"prog": base}]
+    for rel in ("revalue", "same_calls"):
+        r = related_spec(ctx, rng, specs, 0, rel, cap)
+        if isinstance(r, dict):
+            specs.append(r)
+            break
+    g = HistGen(ctx, rng, specs, cap)
+    ib = len(specs) - 1
+    g.comp = {"backends": {"B0": rng.choice(["permanent", "slos"])}, "sources": ["S0"], "detectors": {"D0": [1, 0, True]},
+              "ps": {"P0": [[0], [0]]}}
+    omit_first = variant % 2 == 0
+    b2 = [None, "str:slos", "str:permanent"][variant % 3]
+    in0, in1 = g.small_input(0), g.small_input(ib)
+    tunes = TUNES.get(what, [])
+    t1 = tunes[variant % len(tunes)] if tunes else None
+    t2 = tunes[(variant + 1 + variant // len(tunes)) % len(tunes)] if tunes else None
+
+    def tune(name: str, t) -> None:
+        if what == "backend":
+            cur = g.S[name]["bref"]
+            now = "permanent" if cur is None else cur[4:]
+            new = "slos" if now == "permanent" else "permanent"
+            g.steps.append(["backend_mutate_own", name, new])
+            g.S[name]["bref"] = f"str:{new}"
+            ctx.count("hist:tune:backend")
+        else:
+            g.tune(name, what, t)
+
+    def sample(name: str) -> None:
+        g.steps.append(["sample", name, rng.choice(["outputs", "inputs", "one"]), 10, rng.randrange(1000), None])
+
+    g.new("s1", 0, in0, None, None, None, ALL_KW if omit_first else None)
+    g.new("s2", ib, in1, b2 if what != "backend" else None, None, None, None if omit_first else ALL_KW)
+    if variant % 4 < 2:
+        g.read("s1")
+        g.read("s2")
+    tune("s1", t1)
+    g.read("s2")
+    if what == "detector":
+        sample("s1")
+        sample("s2")
+    g.new("s3", 0 if variant % 2 else ib, in0 if variant % 2 else in1, None, None, None, ALL_KW if variant % 3 else None)
+    g.read("s3")
+    g.read("s1")
+    # the tuned Sampler goes back to a default object: ideal again, and a NEW object
+    if what == "backend":
+        g.steps.append(["backend", "s1", None])
+        g.S["s1"]["bref"] = None
+    else:
+        g.steps.append([what, "s1", None])
+    g.read("s1")
+    tune("s1", t2)
+    g.read("s2")
+    g.read("s3")
+    g.read("s1")
+    if what != "backend":
+        # an object given explicitly to two Samplers IS shared: tuning it through one accessor shows in both,
+        # and in nobody else
+        g.new("s4", 0, in0, "B0", "S0", "D0")
+        g.new("s5", ib, in1, "B0", "S0", "D0")
+        tune("s4", t1)
+        g.read("s5")
+        g.read("s2")
+        g.steps.append([what, "s5", None])
+        g.read("s5")
+        g.new("s6", ib, in1, None, None, None, ALL_KW)
+        g.read("s6")
+    ctx.count(f"hist:defaults:{what}")
+    return g.scenario()
+
+
+# ---- magnitude of a change
+
+MAG_EXPS = [3, 6, 8, 5, 10, 7, 12, 9, 4, 11]
+
+
+def tight_for(delta: Fraction | float) -> float:
+    return max(float(delta) / 50, 1e-13)
+
+
+def mag_bases() -> list:
+    """(program with ONE Parameter 'p0', kind, input) - the Parameter's value is the rational point with parameter t"""
+    F = Fraction
+    from core import GQ
+
+    def par(op):
+        op[-1]["param"] = "p0"
+        return op
+
+    w = GQ(F(3, 5), F(4, 5))
+    out = []
+    # two photons on a beam splitter next to the interference dip: P[1,1] = (2R-1)^2 ~ 6e-8 resp. 2e-6
+    for t in (F(29, 70), F(12, 29)):
+        c, s_ = point(t)
+        out.append(([["new", "c1", 2], par(cg.op_bs("c1", 0, 1, c, s_, "Rx"))], "bs", [1, 1]))
+    # a phase between beam splitters, a loss element on the third mode (the shape of a fine fringe scan)
+    x, y = point(F(2, 5))
+    out.append(([["new", "c1", 3], cg.op_bs("c1", 0, 1, F(3, 5), F(4, 5), "H"), cg.op_bs("c1", 1, 2, F(4, 5), F(3, 5), "H"),
+                 par(cg.op_ps("c1", 1, GQ(x, y))), cg.op_loss("c1", 2, F(12, 13), F(5, 13)),
+                 cg.op_bs("c1", 0, 1, F(5, 13), F(12, 13), "H"), cg.op_bs("c1", 1, 2, F(3, 5), F(4, 5), "Rx")], "ps", [1, 1, 0]))
+    # a loss element whose value moves
+    a, b = point(F(1, 3))
+    out.append(([["new", "c1", 2], cg.op_bs("c1", 0, 1, F(3, 5), F(4, 5)), par(cg.op_loss("c1", 0, a, b)), cg.op_ps("c1", 1, w),
+                 cg.op_bs("c1", 0, 1, F(8, 17), F(15, 17), "H")], "loss", [2, 0]))
+    # the Parameter inside a heralded group
+    x, y = point(F(3, 7))
+    out.append(([["new", "g1", 3], cg.op_bs("g1", 0, 2, F(4, 5), F(3, 5)), par(cg.op_ps("g1", 2, GQ(x, y))),
+                 cg.op_bs("g1", 1, 2, F(5, 13), F(12, 13), "H"), ["herald", "g1", 1, 2, 2],
+                 ["new", "c1", 3], cg.op_bs("c1", 1, 2, F(3, 5), F(4, 5), "H"), ["add", "c1", "g1", 0, True],
+                 cg.op_bs("c1", 1, 2, F(8, 17), F(15, 17))], "ps", [1, 0, 1]))
+    # a reflectivity next to 1 (the beam splitter is almost absent), loss on the other arm
+    c, s_ = point(F(1, 10**4))
+    out.append(([["new", "c1", 3], cg.op_bs("c1", 0, 1, F(3, 5), F(4, 5)), par(cg.op_bs("c1", 1, 2, c, s_, "H")),
+                 cg.op_loss("c1", 0, F(4, 5), F(3, 5)), cg.op_bs("c1", 0, 1, F(12, 13), F(5, 13), "H")], "bs", [1, 1, 0]))
+    return out
+
+
+def find_param_op(prog: list, key: str = "p0"):
+    for op in prog:
+        if _pex(op).get("param") == key:
+            return op
+    return None
+
+
+def magnitude_scenario(ctx: Ctx, rng, prog: list, kind: str, inp: list | None, cap: int, bn: str, mover: str,
+                       exps: list) -> dict | None:
+    """one long-lived Sampler; the value of ONE component moves by 10^-e for every e of `exps`"""
+    op0 = find_param_op(prog)
+    if op0 is None:
+        return None
+    v0 = op_value(op0)
+    t0 = t_of(GQ.parse(v0).re, GQ.parse(v0).im) if kind == "ps" else t_of(*v0)
+    if t0 is None:
+        return None
+    ts = [t0]
+    for j, e in enumerate(exps):
+        t = ts[-1] + (1 if j % 3 else -1) * Fraction(1, 10**e)
+        if kind != "ps" and not 0 <= t <= 1:
+            # reflectivity = x^2 and loss = y^2 of the point (x, y): the library sees the squares, so the point stays
+            # in the first quadrant (as all generated beam splitters and loss elements do)
+            t = ts[-1] - (1 if j % 3 else -1) * Fraction(1, 10**e)
+        ts.append(t)
+    if mover == "pset":
+        g = HistGen(ctx, rng, [{"prog": prog}], cap)
+        g.comp = {"backends": {"B0": bn}, "sources": [], "detectors": {}, "ps": {}}
+        g.new("s1", 0, inp, rng.choice(["B0", f"str:{bn}"]), None, None, ["source", "detector"])
+        g.read("s1", 1e-13)
+        for e, t in zip(exps, ts[1:]):
+            g.steps.append(["pset", "p0", kind, value_at(kind, t)])
+            g.read("s1", tight_for(Fraction(1, 10**e)))
+        g.steps.append(["pset", "p0", kind, value_at(kind, ts[0])])
+        g.read("s1", 1e-13)
+    elif mover == "circuit":
+        # the same calls with the value as a literal, one circuit object per value
+        def lit(t):
+            q = []
+            for op in _clone(prog):
+                if _pex(op).get("param") == "p0":
+                    op = literal_op(op, {"p0": value_at(kind, t)})
+                q.append(op)
+            return {"prog": q}
+
+        use = ts[:6]
+        g = HistGen(ctx, rng, [lit(t) for t in use], cap)
+        g.comp = {"backends": {"B0": bn}, "sources": [], "detectors": {}, "ps": {}}
+        g.new("s1", 0, inp, f"str:{bn}", None, None)
+        g.read("s1", 1e-13)
+        for j in range(1, len(use)):
+            g.steps.append(["circuit", "s1", j])
+            g.S["s1"]["ci"] = j
+            g.read("s1", tight_for(abs(use[j] - use[j - 1])))
+        g.steps.append(["circuit", "s1", 0])
+        g.read("s1", tight_for(abs(use[-1] - use[0])))
+    else:
+        # the brightness of the Sampler's own (default) Source leaves 1 by 10^-e and comes back
+        g = HistGen(ctx, rng, [{"prog": prog}], cap)
+        g.comp = {"backends": {"B0": bn}, "sources": ["S0"], "detectors": {}, "ps": {}}
+        g.new("s1", 0, inp, "B0", rng.choice([None, "S0"]), None)
+        g.read("s1")
+        for j, e in enumerate(exps[:6]):
+            g.tune("s1", "source", {"brightness": 1 - 10.0 ** -e})
+            g.read("s1", 1e-13)
+            if j % 2:
+                g.tune("s1", "source", {"brightness": 1})
+                g.read("s1", 1e-13)
+        g.tune("s1", "source", {"brightness": 1})
+        g.read("s1", 1e-13)
+    ctx.count(f"hist:magnitude:{mover}:{kind}")
+    return g.scenario()
+
+
+def random_mag_base(ctx: Ctx, rng, cap: int):
+    """a circuit of the tree generator in which one bs / ps / loss call (at any depth) gets the Parameter"""
+    case = hist_base(ctx, rng, cap)
+    if case is None:
+        return None
+    prog = _clone(case["prog"])
+    cands = []
+    for op in prog:
+        ex = _pex(op)
+        if op[0] not in ("bs", "ps", "loss") or "refl" in ex or "loss" in ex or "conv" in ex:
+            continue
+        v = op_value(op)
+        t = t_of(GQ.parse(v).re, GQ.parse(v).im) if op[0] == "ps" else t_of(*v)
+        if t is not None:
+            cands.append(op)
+    if not cands:
+        return None
+    op = rng.choice(cands)
+    if isinstance(op[-1], dict):
+        op[-1]["param"] = "p0"
+    else:
+        op.append({"param": "p0"})
+    c = Scene([{"prog": prog}]).circ(0)
+    if c is None or c.input_modes != len(case["input"]):
+        return None
+    return prog, op[0], case["input"]
+
+
 def hist_base(ctx: Ctx, rng, cap: int):
     """a base circuit for scenarios: from the tree generator, preferring lossy and heralded ones"""
     best = None
@@ -887,6 +1370,35 @@ def run_hist(ctx: Ctx, rng) -> None:
                                                         rng.choice(["permanent", "slos"]), False)))
         else:
             scs.append(("random:shared", shared_history(ctx, rng, case["prog"], case["input"], cap)))
+    # 3. default components per object / magnitude of a change (own streams: the ones above stay what they were)
+    extra: list = []
+    for base in corpus_bases():
+        for what, nvar in (("source", 5), ("detector", 4), ("backend", 2)):
+            extra += [("corpus:defaults", defaults_scenario(ctx, crng, base, cap, what, v)) for v in range(nvar)]
+    for k, (prog, kind, inp) in enumerate(mag_bases()):
+        for bn in ("permanent", "slos"):
+            for j, mover in enumerate(("pset", "circuit", "brightness")):
+                exps = MAG_EXPS[(k + j) % 3:] + MAG_EXPS[:(k + j) % 3]
+                extra.append(("corpus:magnitude", magnitude_scenario(ctx, crng, prog, kind, inp, cap, bn, mover, exps)))
+    xrng = pyrandom.Random(f"C04-hist-defaults-magnitude-{ctx.seed}")
+    for i in range(ctx.n(45, 900)):
+        if i % 3 == 0:
+            case = hist_base(ctx, xrng, cap)
+            if case is not None:
+                extra.append(("random:defaults", defaults_scenario(ctx, xrng, case["prog"], cap,
+                                                                   xrng.choice(["source", "source", "detector", "backend"]),
+                                                                   xrng.randrange(60))))
+        else:
+            mb = random_mag_base(ctx, xrng, cap)
+            if mb is not None:
+                exps = xrng.sample(range(3, 13), xrng.randint(4, 7))
+                extra.append(("random:magnitude", magnitude_scenario(
+                    ctx, xrng, mb[0], mb[1], mb[2], cap, xrng.choice(["permanent", "slos"]),
+                    xrng.choice(["pset", "pset", "circuit", "brightness"]), exps)))
+    # the directed part of the new streams runs right after the directed part of the old ones
+    ncorp = sum(1 for tag, _ in scs if tag.startswith("corpus"))
+    scs = scs[:ncorp] + [x for x in extra if x[1] is not None and x[0].startswith("corpus")] + scs[ncorp:] + \
+        [x for x in extra if x[1] is not None and not x[0].startswith("corpus")]
     reported = 0
     for tag, sc in scs:
         if ctx.out_of_time() or reported >= 4:
@@ -907,7 +1419,10 @@ def run(ctx: Ctx) -> None:
                 "objects and circuit objects are shared by several Samplers on related circuits of equal dimensions "
                 "(Unitary of the U_full, other herald photons / modes, other values, same calls) in both orders, and short "
                 "histories on living Samplers (in-place extension, herald change, input / backend re-assignment), every "
-                "read compared with the exact model, the loss-configuration sum and a fresh Sampler; non-trivial = >= 2 "
+                "read compared with the exact model, the loss-configuration sum and a fresh Sampler; Samplers left with "
+                "default source / detector / backend objects while another Sampler's default object is tuned in place; "
+                "one long-lived Sampler whose Parameter / circuit / source value moves by 1e-3 ... 1e-12 (reads bit for bit "
+                "with a fresh Sampler and at max(move/50, 1e-13) with the exact model); non-trivial = >= 2 "
                 "photons injected and the circuit has loss or a herald, resp. >= 2 reads; distinct = distinct (program, "
                 "input) resp. scenario")
     N = ctx.n(160, 4000)
